@@ -139,6 +139,7 @@ def table_v(T, name, prec=None, source=""):
     L.append("Definition %s_eof : N := %d." % (name, T.eof))
     L.append("Definition %s_err_state : N := %d." % (name, T.err_state))
     L.append("Definition %s_start : N := %d." % (name, T.start))
+    L.append("Definition %s_nnt : N := %d." % (name, len(T.nts)))
     past = T.compute_past()
     L.append("(* annotation computed by the harness; it is CHECKED by safe_check, not trusted *)")
     L.append("Definition %s_past (s : N) : list symbol :=\n  match s with" % name)
